@@ -17,6 +17,7 @@ type modInfo struct {
 	whole   bool
 	targets []string // loop-invariant base refs
 	guards  []string // optional per-target conditions (parallel to targets; may be shorter)
+	idxs    []string // optional per-target element index (parallel to targets; may be shorter; "" = the whole backing array)
 	fresh   bool     // some targets are objects allocated inside the loop / callee
 }
 
@@ -742,6 +743,22 @@ func (fr *Frame) havoc(st, pre *State, mods map[string]*modInfo) {
 				g := ""
 				if ti < len(m.guards) {
 					g = m.guards[ti]
+				}
+				ix := ""
+				if ti < len(m.idxs) {
+					ix = m.idxs[ti]
+				}
+				if ix != "" && strings.HasPrefix(name, "E|") && strings.HasPrefix(elemSort, "(Array Int ") {
+					// one element of a backing array: only that index changes
+					ev := vc.fresh("hv", innerSort(elemSort))
+					if g != "" {
+						ev = ite(g, ev, sel2(t, tg, ix))
+					}
+					t = sto(t, tg, sto(sel(t, tg), ix, ev))
+					if vc.logStores {
+						vc.storeLog = append(vc.storeLog, storeRec{heap: name, base: tg})
+					}
+					continue
 				}
 				nv := vc.fresh("hv", elemSort)
 				if g != "" {
